@@ -61,7 +61,7 @@ const OPERANDS: &[(&str, &str, Option<i64>)] = &[
 ];
 
 const BINOPS: &[&str] = &["+", "-", "*", "/", "%", "==", "!=", "<", ">", "<=", ">=", "&&", "||", "?", "!?", "^"];
-const BINFUNS: &[&str] = &["MIN", "MAX", "POW"];
+const BINFUNS: &[&str] = &["MIN", "MAX", "POW", "RANDOM"];
 const UNFUNS: &[&str] = &["-", "not", "FLOOR", "CEILING", "INT", "FLOAT", "LIST_COUNT", "LIST_MIN", "LIST_MAX", "LIST_ALL", "LIST_INVERT", "LIST_VALUE", "LIST_RANDOM"];
 
 fn wrap(op: &str, a: i64, b: i64) -> Option<i64> {
@@ -144,6 +144,7 @@ pub fn statement_cases() -> Vec<Case> {
         ("tunnel-return-outside", "Start.\n-> k\n=== k ===\nIn k.\n->->\n"),
         ("return-outside-function", "Start.\n-> k\n=== k ===\n~ return 3\nAfter.\n-> END\n"),
         ("random-reversed", "Start {RANDOM(5, 1)}.\n-> END\n"),
+        ("random-empty-range", "VAR lo = 3\nStart {RANDOM(3, 2)} {RANDOM(1, 0)} {RANDOM(0, 0 - 1)} {RANDOM(lo, lo - 1)}.\n-> END\n"),
         ("random-full-range", "VAR imax = 2147483647\nVAR imin = -2147483647\nStart {RANDOM(imin - 1, imax)}.\n-> END\n"),
         ("random-max", "VAR imax = 2147483647\nStart {RANDOM(0, imax)} {RANDOM(1, imax)}.\n-> END\n"),
         ("seed-random-string", "~ SEED_RANDOM(\"x\")\nStart {RANDOM(1, 2)}.\n-> END\n"),
